@@ -26,7 +26,7 @@ from . import common, opbuild as ob
 from .common import natlist
 
 PROP = "C01"
-SH = 60                      # cases per shard
+SH = 100                     # cases per shard
 
 HDR = ("From Coq Require Import List ZArith Bool Uint63.\nImport ListNotations.\n"
        "Require Import C01.Sums C01.Batch C01.Tensor C01.OpExpr C01.Model C01.Covered C01.Check.\nOpen Scope Z_scope.\n")
@@ -47,9 +47,9 @@ def zl(v):
 
 
 def flat_lit(x):
-    """integer valued torch tensor -> flat row-major data in chunks of primitive 63-bit integers (two's complement), see
+    """integer valued torch tensor -> flat row-major data in chunks of primitive 63-bit integers (sign-magnitude: 2|v| + [v<0]), see
     coq/C01/Check.v untable: primitive integer literals elaborate ~3x faster than nested lists of Z numerals"""
-    ints = [int(round(v)) % (1 << 63) for v in x.reshape(-1).tolist()]
+    ints = [2 * abs(int(round(v))) + (1 if v < 0 else 0) for v in x.reshape(-1).tolist()]
     chunks = [ints[i:i + 400] for i in range(0, len(ints), 400)]
     return "[" + "; ".join("[" + "; ".join(map(str, ch)) + "]" for ch in chunks) + "]%uint63"
 
